@@ -80,6 +80,14 @@ func (d *dumper) tid(t types.Type) string {
 		return s
 	}
 	s := types.TypeString(t, qual)
+	if al, ok := t.(*types.Alias); ok {
+		// an alias that prints like its target (e.g. any) must not become a self-referential entry
+		if types.TypeString(types.Unalias(al), qual) == s {
+			r := d.tid(types.Unalias(al))
+			d.tseen[t] = r
+			return r
+		}
+	}
 	d.tseen[t] = s
 	if _, ok := d.types[s]; ok {
 		return s
